@@ -1,0 +1,129 @@
+//go:build verif
+// +build verif
+
+package satisfaction_levels
+
+// Contracts for gocv (comment-only; compiled out unless the tag "verif" is set, and empty then).
+
+//@ spec incMul(r real, c real) real = min((1.0+r)*(1.0+c)-1.0, 1.0)
+//@ spec incAdd(r real, c real) real = min(r+c, 1.0)
+//@ spec decMul(r real, c real) real = r*c
+//@ spec decSub(r real, c real) real = max(r-c, 0.0)
+
+//@ func (*IncreasingCoefficientManager).Validate
+//@   property C14 C20
+//@   panics_iff [range] params.Coefficient <= 0.0 || params.Coefficient >= 1.0 || params.MinValue < 0.0 || params.MinValue > 1.0 || params.MaxValue < 0.0 || params.MaxValue > 1.0
+//@ func (*IncreasingCoefficientManager).InitialValue
+//@   property C14
+//@   ensures [initial] result == params.MinValue
+//@ func (*IncreasingCoefficientManager).HasNext
+//@   property C14
+//@   ensures [hasnext] result <==> params.currentValue < params.MaxValue
+
+//@ func (*DecreasingCoefficientManager).Validate
+//@   property C14 C20
+//@   panics_iff [range] params.Coefficient <= 0.0 || params.Coefficient >= 1.0 || params.MinValue <= 0.0 || params.MinValue > 1.0 || params.MaxValue <= 0.0 || params.MaxValue > 1.0
+//@ func (*DecreasingCoefficientManager).InitialValue
+//@   property C14
+//@   ensures [initial] result == params.MaxValue
+//@ func (*DecreasingCoefficientManager).HasNext
+//@   property C14
+//@   ensures [hasnext] result <==> params.currentValue > params.MinValue
+
+//@ func var:IdealIncreasingMulCoefficientSatisfaction#1
+//@   property C14
+//@   ensures [formula] result == incMul(current, coefficient)
+//@ func var:IdealAdditiveCoefficientSatisfaction#1
+//@   property C14
+//@   ensures [formula] result == incAdd(current, coefficient)
+//@ func var:IdealDecreasingMulCoefficientSatisfaction#1
+//@   property C14
+//@   ensures [formula] result == decMul(current, coefficient)
+//@ func var:IdealSubtrCoefficientSatisfaction#1
+//@   property C14
+//@   ensures [formula] result == decSub(current, coefficient)
+
+//@ lemma [C14] inc_mul_strictly_increasing: forall r real, c real, mx real
+//@   requires 0.0 <= r && r < mx && mx <= 1.0 && 0.0 < c && c < 1.0
+//@   ensures  incMul(r, c) > r && incMul(r, c) <= 1.0
+//@   ensures  incMul(r, c) >= mx || mx - incMul(r, c) <= mx - r - c
+//@ lemma [C14] inc_add_strictly_increasing: forall r real, c real, mx real
+//@   requires 0.0 <= r && r < mx && mx <= 1.0 && 0.0 < c && c < 1.0
+//@   ensures  incAdd(r, c) > r && incAdd(r, c) <= 1.0
+//@   ensures  incAdd(r, c) >= mx || mx - incAdd(r, c) <= mx - r - c
+//@ lemma [C14] dec_mul_strictly_decreasing: forall r real, c real, mn real
+//@   requires 0.0 < mn && mn < r && r <= 1.0 && 0.0 < c && c < 1.0
+//@   ensures  decMul(r, c) < r && decMul(r, c) > 0.0
+//@   ensures  r - decMul(r, c) >= mn * (1.0 - c)
+//@ lemma [C14] dec_sub_strictly_decreasing: forall r real, c real, mn real
+//@   requires 0.0 < mn && mn < r && r <= 1.0 && 0.0 < c && c < 1.0
+//@   ensures  decSub(r, c) < r && decSub(r, c) >= 0.0
+//@   ensures  decSub(r, c) <= mn || r - decSub(r, c) >= c
+
+//@ spec levelAt(r utils.ValueRange, c model.Criterion, x real) real = c.Type == model.Cost ? r.Max - (r.Max - r.Min) * x : r.Min + (r.Max - r.Min) * x
+//@ spec updval(m CoefficientManager, r real, c real) real
+
+//@ ifacemethod CoefficientManager.UpdateValue
+//@   ensures result == updval(self, current, coefficient)
+//@ ifacemethod CoefficientManager.InitialValue
+//@   ensures result == initval(self, params.MinValue, params.MaxValue)
+//@ spec initval(m CoefficientManager, mn real, mx real) real
+
+//@ func (*IdealCoefficientSatisfactionLevels).Next
+//@   property C14
+//@   requires len(s.criteriaValuesRanges) >= len(s.criteria)
+//@   requires forall i int, j int :: 0 <= i && i < j && j < len(s.criteria) ==> s.criteria[i].Id != s.criteria[j].Id
+//@   assigns s
+//@   ensures [level] forall k int :: 0 <= k && k < len(old(s.criteria)) ==>
+//@             old(s.criteria[k].Id) in result &&
+//@             result[old(s.criteria[k].Id)] == levelAt(old(s.criteriaValuesRanges[k]), old(s.criteria[k]), old(s.currentValue))
+//@   ensures [only_criteria] forall q string :: q in result ==> exists k int :: 0 <= k && k < len(old(s.criteria)) && old(s.criteria[k].Id) == q
+//@   ensures [update] s.currentValue == updval(old(s.manager), old(s.currentValue), old(s.Coefficient))
+//@   ensures [rest_unchanged] s.Coefficient == old(s.Coefficient) && s.MaxValue == old(s.MaxValue) && s.MinValue == old(s.MinValue)
+//@             && s.criteria == old(s.criteria) && s.criteriaValuesRanges == old(s.criteriaValuesRanges) && s.manager == old(s.manager)
+//@   ensures [fresh] fresh(result)
+//@   loop 1 invariant [filled] forall k int :: 0 <= k && k < iter ==>
+//@             s.criteria[k].Id in weights &&
+//@             weights[s.criteria[k].Id] == levelAt(s.criteriaValuesRanges[k], s.criteria[k], s.currentValue)
+//@   loop 1 invariant [only] forall q string :: q in weights ==> exists k int :: 0 <= k && k < iter && s.criteria[k].Id == q
+
+//@ func (*ThresholdSatisfactionLevels).HasNext
+//@   property C12 C13 C14
+//@   ensures [hasnext] result <==> t.currentIndex + 1 < len(t.Thresholds)
+//@ func (*ThresholdSatisfactionLevels).Next
+//@   property C12 C13 C14
+//@   requires 0 <= t.currentIndex + 1 && t.currentIndex + 1 < len(t.Thresholds)
+//@   assigns t
+//@   ensures [advance] t.currentIndex == old(t.currentIndex) + 1 && t.Thresholds == old(t.Thresholds)
+//@   ensures [level] result == old(t.Thresholds[t.currentIndex + 1])
+//@ func (*ThresholdSatisfactionLevels).Initialize
+//@   property C12 C13 C14 C20
+//@   assigns t
+//@   panics_iff [missing_threshold] exists i int, c int :: 0 <= i && i < len(t.Thresholds) && 0 <= c && c < len(dmp.Criteria) && !(dmp.Criteria[c].Id in t.Thresholds[i])
+//@   ensures [reset] t.currentIndex == -1 && t.Thresholds == old(t.Thresholds)
+//@   loop 1 invariant [outer] forall i int, c int :: 0 <= i && i < iter && 0 <= c && c < len(dmp.Criteria) ==> dmp.Criteria[c].Id in t.Thresholds[i]
+//@   loop 1 invariant [t] t.currentIndex == -1 && t.Thresholds == old(t.Thresholds)
+//@   loop 2 invariant [outer] forall i int, c int :: 0 <= i && i < i && 0 <= c && c < len(dmp.Criteria) ==> dmp.Criteria[c].Id in t.Thresholds[i]
+//@   loop 2 invariant [inner] forall c int :: 0 <= c && c < iter ==> dmp.Criteria[c].Id in threshold
+//@   loop 2 invariant [t] t.currentIndex == -1 && t.Thresholds == old(t.Thresholds) && 0 <= i && i < len(t.Thresholds) && threshold == t.Thresholds[i]
+
+//@ pred observedRange(r utils.ValueRange, a []model.AlternativeWithCriteria, b []model.AlternativeWithCriteria, id string) =
+//@      (forall k int :: 0 <= k && k < len(a) + len(b) ==> r.Min <= model.altAt(a, b, k).Criteria[id] && model.altAt(a, b, k).Criteria[id] <= r.Max)
+//@   && (len(a) + len(b) > 0 ==> (exists k int :: 0 <= k && k < len(a) + len(b) && r.Min == model.altAt(a, b, k).Criteria[id])
+//@                            && (exists k int :: 0 <= k && k < len(a) + len(b) && r.Max == model.altAt(a, b, k).Criteria[id]))
+//@   && (len(a) + len(b) == 0 ==> r.Min == 0.0 && r.Max == 0.0)
+//@ pred rangeOf(r utils.ValueRange, dmp model.DecisionMakingParams, c model.Criterion) =
+//@      c.ValuesRange != nil ? r == *c.ValuesRange : observedRange(r, dmp.ConsideredAlternatives, dmp.NotConsideredAlternatives, c.Id)
+
+//@ func (*IdealCoefficientSatisfactionLevels).Initialize
+//@   property C14
+//@   assigns s
+//@   ensures [criteria] s.criteria == dmp.Criteria && len(s.criteriaValuesRanges) == len(dmp.Criteria)
+//@   ensures [ranges] forall k int :: 0 <= k && k < len(dmp.Criteria) ==> rangeOf(s.criteriaValuesRanges[k], *dmp, dmp.Criteria[k])
+//@   ensures [start] s.currentValue == initval(old(s.manager), old(s.MinValue), old(s.MaxValue))
+//@   ensures [params_kept] s.Coefficient == old(s.Coefficient) && s.MaxValue == old(s.MaxValue) && s.MinValue == old(s.MinValue) && s.manager == old(s.manager)
+//@   loop 1 invariant [ranges] forall k int :: 0 <= k && k < iter ==> rangeOf(s.criteriaValuesRanges[k], *dmp, dmp.Criteria[k])
+//@   loop 1 invariant [s] s.criteria == dmp.Criteria && len(s.criteriaValuesRanges) == len(dmp.Criteria) && fresh(s.criteriaValuesRanges)
+//@   loop 1 invariant [s2] s.Coefficient == old(s.Coefficient) && s.MaxValue == old(s.MaxValue) && s.MinValue == old(s.MinValue) && s.manager == old(s.manager)
+//@   loop 1 invariant [all] len(alternatives) == len(dmp.ConsideredAlternatives) + len(dmp.NotConsideredAlternatives)
+//@   loop 1 invariant [all1] forall k int :: 0 <= k && k < len(alternatives) ==> alternatives[k] == model.altAt(dmp.ConsideredAlternatives, dmp.NotConsideredAlternatives, k)
